@@ -496,3 +496,37 @@ pub fn reset_then_stop_credit_native(buffered: u8, extra: u8) -> u32 {
     assert!(credit == 1000, "connection-level credit after reset + stop is {} for a 1000-byte window: the unread bytes were credited twice", credit);
     1
 }
+
+/// Native replay body for the E2 query `e2_chunks_new_keeps_stream_on_error` (C11 / C06), and demonstration
+/// for finding 18: a stream with 8 unread bytes is read unordered once, then the application asks for an
+/// ordered read - which is refused with `IllegalOrderedRead`.  The refusal must leave the stream as it was:
+/// it can still be read unordered and stopped, its data is still credited, and it still counts as open
+/// until it really ends.
+pub fn illegal_ordered_read_native(_x: u8) -> u32 {
+    use super::state::verif::{mk_streams, Scalars};
+    let mut st = mk_streams(&Scalars {
+        server: true, max_remote: [4, 4], sent_max_remote: [4, 4], allocated_remote_count: [4, 4], max_concurrent_remote_count: [4, 4],
+        receive_window: 1 << 20, local_max_data: 1 << 20, sent_max_data: 1 << 20, stream_receive_window: 1 << 16, ..Default::default()
+    });
+    let mut pending = Retransmits::default();
+    let id = StreamId::new(crate::Side::Client, Dir::Uni, 0);
+    st.insert(true, id);
+    st.received(frame::Stream { id, offset: 4, fin: false, data: Bytes::from_static(b"efgh") }, 4).unwrap();
+    {
+        let mut rs = RecvStream { id, state: &mut st, pending: &mut pending };
+        let mut chunks = rs.read(false).expect("unordered read");
+        assert!(matches!(chunks.next(usize::MAX), Ok(Some(_))));
+        let _ = chunks.finalize();
+    }
+    st.received(frame::Stream { id, offset: 0, fin: false, data: Bytes::from_static(b"abcd") }, 4).unwrap();
+    {
+        let mut rs = RecvStream { id, state: &mut st, pending: &mut pending };
+        assert!(matches!(rs.read(true), Err(ReadableError::IllegalOrderedRead)), "an ordered read after an unordered one must be refused");
+    }
+    assert!(st.recv.contains_key(&id), "a refused read removed the stream's receive state: the stream is gone without ever ending");
+    let mut rs = RecvStream { id, state: &mut st, pending: &mut pending };
+    let mut chunks = rs.read(false).ok().expect("the stream must still be readable the way it was read before");
+    assert!(matches!(chunks.next(usize::MAX), Ok(Some(c)) if &c.bytes[..] == b"abcd"), "data received before the refused read was lost");
+    let _ = chunks.finalize();
+    1
+}
